@@ -492,6 +492,27 @@ def r02_16(ctx: Ctx, rule: str = "R02.16") -> None:
               "the folder's CRC is never looked at", construct="decompress returns before the end-of-folder test")
 
 
+def r02_17(ctx: Ctx, rule: str = "R02.17") -> None:
+    """whether a link of the tree is re-created must not depend on the ORDER of the members: a link's text may pass through another link
+    ('j -> k/../../x', 'k -> a/b/c'), and writeall stores members in sorted order, so `j` comes before `k`.  The containment of a link's
+    target is decided in Worker._extract_single at the moment the link member is reached, on the file system as it is THEN; a refusal there
+    is final.  The rule asks for a second look: the refusing branch of the link arm defers (records the member for a retry after the last
+    member) instead of raising straight away.  On the current tree it raises straight away: known finding F133."""
+    es = ctx.prog.func("py7zr", "Worker._extract_single")
+    cfg = cfg_of(es.node)
+    mk = [c for c in q.calls(es) if attr_tail(c) == "symlink_to" or dotted(c.func) == "os.symlink"]
+    ctx.floor(rule, len(mk), 1, "symlink creation in _extract_single")
+    for c in mk:
+        tests = [t for t in cfg.nodes if t.kind == "test" and any(isinstance(x, ast.Call) and attr_tail(x) == "is_path_contained" for x in ast.walk(t.ast)) and cfg.dominates(t, q.node_for(es, c))]
+        for t in tests[-1:]:
+            fe = next((e for e in t.succ if e.kind == "false"), None)
+            final = fe is not None and q.branch_always_raises(cfg, fe)
+            ctx.check(not final, rule, es, t.ast, "a link whose target cannot be judged yet is looked at again after the last member",
+                      "the link arm of Worker._extract_single refuses a link for good when its target does not resolve inside the destination AT THAT MOMENT: a valid tree with "
+                      "'j -> k/../../x' and 'k -> a/b/c' (sorted order stores j first; k does not exist yet, so 'k/..' is collapsed as text) is refused with 'Symlink point out of "
+                      "target directory' and extraction stops half-way", construct="link target judged once, in member order")
+
+
 def r02_12(ctx: Ctx, rule: str = "R02.12") -> None:
     """a link of the tree is re-created whenever it leads to a place inside the destination AS THE SYSTEM FOLLOWS IT.  The textual check
     (is_path_valid -> canonical_path) collapses 'name/..' without asking whether `name` is a link: with s -> a/b/c/d the valid link
@@ -535,11 +556,14 @@ def r02_10(ctx: Ctx, rule: str = "R02.10") -> None:
 
 
 def run(ctx: Ctx) -> None:
+    from . import c16 as _c16n
+    _c16n.r16_14(ctx, rule="R02.18")  # a tree with a file whose name is nothing but a drive prefix is refused, not archived as '.'
     r02_8(ctx)
     r02_9(ctx)
     r02_11(ctx)
     r02_12(ctx)
     r02_14(ctx)
+    r02_17(ctx)
     r02_15(ctx)
     r02_16(ctx)
     r02_13(ctx)
